@@ -406,9 +406,19 @@ fixedArrayFromBuffer (PyObject *obj)
         throw std::invalid_argument ("Buffer element type or size does not match the array type");
     }
 
+    //  The view was requested with PyBUF_STRIDES, so it need not be
+    // contiguous (a memoryview slice such as [::2] or [::-1], a component
+    // array such as V3fArray.y): copy it item by item in C order instead
+    // of assuming view.len consecutive bytes at view.buf.
     ArrayT *array = new ArrayT (view.shape[0], PyImath::UNINITIALIZED);
-    if (view.len > 0)
-        memcpy (reinterpret_cast<void*>(&array->direct_index(0)), view.buf, view.len);
+    if (view.len > 0 &&
+        PyBuffer_ToContiguous (reinterpret_cast<void*>(&array->direct_index(0)),
+                               &view, view.len, 'C') != 0)
+    {
+        delete array;
+        PyBuffer_Release(&view);
+        boost::python::throw_error_already_set();
+    }
     PyBuffer_Release(&view);
 
     return array;
